@@ -572,6 +572,18 @@ def run(tier, seed):
                               "oracle": "FAIL every logger reads back its own entries only"})
     rep.obligation("O-C16e: secondary loggers with GC enabled keep the newest file and otherwise stay below the bound", "O", not sfail, brief(sfail))
 
+    # ---- O-C16f: an entry larger than the logger's write buffer keeps its place ------------------------------------
+    bfail = []
+    for big in ([300 * 1024] if quick else [300 * 1024, 256 * 1024, 256 * 1024 - 200, 1024 * 1024]):
+        r = impl.call("logBig", Big=big)
+        pos = r.get("pos")
+        rep.case(("big-entry", big))
+        rep.count("big-entry runs")
+        if not pos or len(pos) != 4 or min(pos) < 0 or pos != sorted(pos):
+            bfail.append({"entry_bytes": big, "positions_of_the_four_messages_in_the_files": pos, "harness": None if pos else r,
+                          "oracle": "FAIL after a flush the log files hold the messages in the order they were logged (small, small, %d bytes, small)" % big})
+    rep.obligation("O-C16f: an entry larger than the write buffer is written behind the entries logged before it (raw bytes of the files)", "O", not bfail, brief(bfail))
+
     # ---- O-C16d: rotation with the GC daemon running ------------------------------------------------
     dfail = []
     nrg = (25 if quick else 200) if H else 0
@@ -627,6 +639,10 @@ def run(tier, seed):
     if sfail:
         any_o = True
         rep.violation("a secondary logger with GC enabled is not garbage collected: %s" % json.dumps(sfail[0])[:300], {"failing": sfail[:3]}, tags={"fn": "gcOldFiles", "logger": "secondary"})
+    if bfail:
+        any_o = True
+        rep.violation("an entry larger than the write buffer is out of place in the log file: %s" % json.dumps(bfail[0])[:300], {"failing": bfail[:3]},
+                      tags={"fn": "syncBuffer.Write", "kind": "big-entry-order"})
     if dfail:
         any_o = True
         rep.violation("with GC running the read-back is not a gap-free tail including the newest message", {"failing": dfail[:3]},
